@@ -117,3 +117,20 @@ def assumed(pi, op, lhs, rhs):
 def _flip(o, l, r):
     m = {'==': '==', '!=': '!=', '<': '>', '<=': '>=', '>': '<', '>=': '<='}
     return (m[o], r, l)
+
+
+def asserted_zero(atom, truth):
+    """If the branch outcome (atom, truth) asserts that some value equals 0, return its Poly."""
+    r = rel(atom)
+    if r is not None:
+        op, l, rr = r
+        if (op == '==' and truth) or (op == '!=' and not truth):
+            if rr == aff.Poly.const(0):
+                return l
+            if l == aff.Poly.const(0):
+                return rr
+            return l - rr
+        return None
+    if not truth:
+        return aff.norm(atom)
+    return None
